@@ -466,6 +466,41 @@ func vxC10Run(c *vxC10Case, k *vstats.Case) error {
 				}
 				k.Class("statement keyspace differs from the session keyspace")
 			}
+			// ... and after a node has left: the replica map of the other keyspace describes the new ring as well
+			vi2 := (c.RF + len(ring) + 1) % len(hosts)
+			var ringB []cqlspec.RingEntry
+			for _, e := range ring {
+				if e.Node != vxNodeName(vi2) {
+					ringB = append(ringB, e)
+				}
+			}
+			if msg, p := vxCatch(func() { kp.RemoveHost(hosts[vi2]) }); p {
+				return fmt.Errorf("RemoveHost with replica maps of two keyspaces panicked: %s", msg)
+			}
+			for r := 0; r < vxRanks && len(ringB) > 0; r++ {
+				want := cqlspec.SimpleReplicas(ringB, rf2, int64(r))
+				if len(want) == 0 {
+					continue
+				}
+				fresh := sess.Query(stmt, []byte(vxTokenString(c.Part, r)))
+				var offered []string
+				if msg, p := vxCatch(func() {
+					it := kp.Pick(fresh)
+					for i := 0; i < len(want); i++ {
+						sh := it()
+						if sh == nil || sh.Info() == nil {
+							break
+						}
+						offered = append(offered, sh.Info().hostId)
+					}
+				}); p {
+					return fmt.Errorf("Pick for a statement on keyspace ks2 after a node left panicked: %s", msg)
+				}
+				if !cqlspec.SameSet(offered, want) {
+					return fmt.Errorf("node %s left; statement on keyspace ks2 (rf %d, not the session keyspace), token rank %d: offered first %v, the replicas on the new ring are %v", vxNodeName(vi2), rf2, r, offered, want)
+				}
+			}
+			k.Class("a node left: replica maps of both keyspaces follow")
 		}
 
 		// history: a node leaves while the keyspace metadata cannot be read (control connection down, schema
